@@ -68,6 +68,11 @@ def child_cmd(args):
 
 def run_child(args, env, timeout):
     t0 = time.time()
+    if args.get("optimize"):
+        # interpreter configuration: assert statements (Python and Cython)
+        # are stripped; bounds must not depend on them
+        env = dict(env)
+        env["PYTHONOPTIMIZE"] = "1"
     try:
         r = subprocess.run(child_cmd(args), env=env, capture_output=True,
                            text=True, timeout=timeout, cwd=str(VERIF),
@@ -131,7 +136,8 @@ def scratch():
     return d
 
 
-def minimise_session(seed, idx, upto, sig, env, sdir, budget=24):
+def minimise_session(seed, idx, upto, sig, env, sdir, budget=24,
+                     optimize=False):
     """ddmin over call indices 0..upto of one session, children in parallel."""
     keep = list(range(upto + 1))
     used = [0]
@@ -142,7 +148,7 @@ def minimise_session(seed, idx, upto, sig, env, sdir, budget=24):
             futs = []
             for j, cand in enumerate(cands):
                 args = {"mode": "sessions", "seed": seed, "sessions": [idx],
-                        "keep": cand,
+                        "keep": cand, "optimize": optimize,
                         "progress": str(sdir / f"min-{idx}-{used[0]}-{j}.log")}
                 futs.append(ex.submit(run_child, args, env, 300))
             for f in futs:
@@ -196,6 +202,7 @@ def replay(path):
         if js["part"] == "session":
             args = {"mode": "sessions", "seed": js["seed"],
                     "sessions": [js["session"]], "keep": js["keep"],
+                    "optimize": js.get("optimize", False),
                     "progress": str(sdir / "replay.log")}
         else:
             args = {"mode": "alloc", "seed": js["seed"],
@@ -239,6 +246,7 @@ def run_check(tier, seed):
     for j in range(sz["children"]):
         jobs.append({"mode": "sessions", "seed": seed,
                      "sessions": list(range(j * per, (j + 1) * per)),
+                     "optimize": False,   # see DESIGN 10: python -O is out of scope
                      "progress": str(sdir / f"sess-{j}.log")})
     results = []
     pending = list(jobs)
@@ -357,8 +365,10 @@ def run_check(tier, seed):
             seen.add(sig)
             if a["mode"] == "sessions":
                 idx, k = lc[1], lc[2]
-                keep, nchild = minimise_session(seed, idx, k, sig, env, sdir)
+                keep, nchild = minimise_session(seed, idx, k, sig, env, sdir,
+                                                optimize=bool(a.get("optimize")))
                 js = {"property": "C05", "part": "session", "seed": seed,
+                      "optimize": bool(a.get("optimize")),
                       "session": idx, "keep": keep, "signature": sig,
                       "crashing_call": lc, "minimiser_children": nchild,
                       "sanitizer_report": detail[-4000:],
@@ -461,6 +471,7 @@ def replay_quiet(path, sig, env, sdir):
     if js["part"] == "session":
         args = {"mode": "sessions", "seed": js["seed"],
                 "sessions": [js["session"]], "keep": js["keep"],
+                "optimize": js.get("optimize", False),
                 "progress": str(sdir / f"confirm-{js['session']}.log")}
     else:
         args = {"mode": "alloc", "seed": js["seed"],
